@@ -40,19 +40,22 @@ class AllModel:
             idx = t.keys.index(F.key)
             rsegs = segs[:idx + 1]
             r = "/".join(rsegs)
-            if "*" not in r:
-                return {r} if self.model.natural(r) is not None else set()
             parent = "/".join(rsegs[:-1])
-            vals = [v for v in F.values if seg_match(rsegs[-1], v)] if "*" in rsegs[-1] else [rsegs[-1]]
+            # a literal value is one of the constants or nothing ("replacing a '*' by a literal value returns the subset having it")
+            vals = [v for v in F.values if seg_match(rsegs[-1], v)] if "*" in rsegs[-1] else [v for v in F.values if v == rsegs[-1]]
             out = set()
-            if len(rsegs) > 1 and "*" in parent:
-                if F.parent_source is None:
+            if len(rsegs) > 1 and F.parent_source is not None:
+                # ... and only under a parent that the parent source finds (concrete or searched alike)
+                parents = self.ans_find(F.parent_source, parent)
+                if parents is None:
                     return None
-                for p in self.ans_find(F.parent_source, parent):
+                for p in parents:
                     for v in vals:
                         cand = p + "/" + v
                         if self.model.natural(cand) is not None:
                             out.add(cand)
+            elif len(rsegs) > 1 and "*" in parent:
+                return None
             else:
                 for v in vals:
                     cand = (parent + "/" + v) if parent else v
